@@ -6,6 +6,6 @@ cd /repo && git diff --quiet || { echo "repo dirty"; exit 2; }
 git -C /repo apply --3way $S/patch.diff 2>/dev/null || git -C /repo apply $S/patch.diff || { echo "PATCH DOES NOT APPLY"; exit 3; }
 O=$(mktemp -d /tmp/seedout.XXXX); cd /verif && VERIF_OUTROOT=$O ./check $P --tier $T > /tmp/seed_$1_$P.log 2>&1; rc=$?
 git -C /repo checkout HEAD -- .
-rm -rf $S/detected; mkdir -p $S/detected; cp $O/replays/$P/cex_*.json $S/detected/ 2>/dev/null; rm -rf $O
+mkdir -p $S/detected; rm -f $S/detected/$P.txt; cp $O/replays/$P/cex_*.json $S/detected/ 2>/dev/null; rm -rf $O
 { echo "check=$P tier=$T rc=$rc"; grep -E "^(VIOLATION|INCONCLUSIVE|MODEL-DISC|CHECK|ERROR)" /tmp/seed_$1_$P.log | sed "s#/tmp/seedout\.[A-Za-z0-9]*/replays/$P/#seeded/$1/detected/#" | cut -c1-600; } > $S/detected/$P.txt
 echo "seed=$1 prop=$P rc=$rc"; grep -E "^(VIOLATION|INCONCLUSIVE|MODEL-DISC|CHECK|ERROR)" /tmp/seed_$1_$P.log | cut -c1-400
